@@ -214,6 +214,8 @@ def run(ctx: Ctx) -> None:
                 break
         from . import rxtie
         rxtie.tie_leaf(ctx, drv, quick)      # translated regular expressions + inline leaf rules (autolink, html_inline, entity)
+        from . import pipeline
+        pipeline.tie_full(ctx, drv, 2000 if quick else 50000, ref=True)     # MarkdownIt.parse end to end, reference rule included
     finally:
         drv.close()
     ctx.partial += [
